@@ -251,6 +251,86 @@ def run_cells(cells, res, label):
         w.dispose()
 
 
+def run_behind_unacked(res, cell):
+    """The node has an unacknowledged CON of its own towards the peer (a separate response nobody ACKs); the peer's next
+    message must still be reacted to by the table: ACKs, RSTs and NON responses are never held back."""
+    w, node, req, tok, reqmid, calls = build()
+    try:
+        for n in w.nodes.values():
+            if hasattr(n, "autoack"):
+                n.autoack = False
+        t0 = w.loop.time()
+        first = (rc.CON, 1, False, "peer", "uni", "slow", None)
+        data, mid0, token0 = incoming(first, tok, 0)
+        w.inject(PEER, NODE, data, local_ip=LOCALS["uni"])
+        w.loop.advance_to(t0 + 0.6)        # empty ACK at +0.1, separate CON response at +0.5, nobody acknowledges it
+        w.pool.clear()
+        t1 = w.loop.time()
+        n_before = len(w.sent)
+        data, mid, token = incoming(cell, tok, 1)
+        src = PEER if cell[3] == "peer" else PEER2
+        w.inject(src, NODE, data, local_ip=LOCALS[cell[4]])
+        w.loop.advance_to(t1 + 0.8)
+        earlier = {d.data for d in w.sent[:n_before]}
+        replies = [(dg, rc.decode(dg.data, check_formats=False)) for dg in w.sent[n_before:]
+                   if dg.src == NODE and dg.data not in earlier and not (1 <= dg.data[1] < 32)]
+        got = classify(replies, [mid], [token], t1, with_time=True)
+        want = norm_expected(expected(cell, mid, token))
+        case = {"behind_unacked": list(cell)}
+        res.evaluations += 1
+        res.traces += 1
+        if got != want:
+            res.violate(Violation("reaction-behind-open-exchange", want, got, "messagemanager.py:send_message", case, trace=w.trace[-20:],
+                                  key="behind/" + cells_key([cell])))
+        for msg, e in w.loop_exceptions():
+            res.violate(Violation("loop-exception", "none", core.exc_desc(e) if e else msg, core.site_of(e) if e else "loop", case, key="loop"))
+        res.states.add(core.digest(("behind", cell, got)))
+        res.transitions += 2
+        res.outcomes.add(core.digest(("behind", got)))
+        res.signatures.add(core.digest(("behind", cell)))
+    finally:
+        w.dispose()
+
+
+def run_same_token(res, first_dur, second_dur, second_type):
+    """Two requests of one peer on the same token with different message IDs, the second arriving before the first was
+    acknowledged: the second is acknowledged under its own ID (what happens to the superseded first is a don't-care)."""
+    w, node, req, tok, reqmid, calls = build()
+    try:
+        t0 = w.loop.time()
+        T = b"\x5a"
+        w.inject(PEER, NODE, rc.encode((rc.CON, 1, 0x5100, T, [(11, ("h" + first_dur).encode())], b"")))
+        w.inject(PEER, NODE, rc.encode((second_type, 1, 0x5101, T, [(11, ("h" + second_dur).encode())], b"")))
+        while True:
+            for dg in list(w.pool):
+                w.deliver(dg)
+            tn = w.loop.next_timer()
+            if tn is None or tn > t0 + 1.5:
+                break
+            w.loop.fire_next_timer()
+        case = {"same_token": [first_dur, second_dur, int(second_type)]}
+        res.evaluations += 1
+        res.traces += 1
+        sent = [rc.decode(d.data, check_formats=False) for d in w.sent if d.src == NODE and d.t >= t0 and not (1 <= d.data[1] < 32)]
+        if second_type == rc.CON:
+            acks = [m for m in sent if m[0] == rc.ACK and m[2] == 0x5101]
+            if len(acks) != 1:
+                res.violate(Violation("superseding-request-not-acknowledged", "one ACK under message ID 0x5101", [rc.describe(m) for m in sent],
+                                      "messagemanager.py:_process_request", case, key="same-token-ack"))
+        finals = [m for m in sent if m[1] >= 64 and m[3] == T]
+        if not (1 <= len(finals) <= 2) or not any(m[5] == b"r" for m in finals):
+            res.violate(Violation("superseding-request-unanswered", "a 2.05 on the token", [rc.describe(m) for m in sent],
+                                  "messagemanager.py:_process_request", case, key="same-token-resp"))
+        if any(m[0] == rc.ACK and m[2] not in (0x5100, 0x5101) for m in sent):
+            res.violate(Violation("ack-without-con", "ACK only for a CON's message ID", [rc.describe(m) for m in sent], "messagemanager.py", case, key="ack"))
+        res.states.add(core.digest(("same", first_dur, second_dur, second_type, len(sent))))
+        res.transitions += 2
+        res.outcomes.add(core.digest(("same", len(sent))))
+        res.signatures.add(core.digest(("same", first_dur, second_dur, second_type)))
+    finally:
+        w.dispose()
+
+
 def cells_key(cells):
     return "+".join("%s:%d.xx" % ("CNAR"[c[0]], c[1] >> 5) for c in cells[:1]) + ("+.." if len(cells) > 1 else "")
 
@@ -313,6 +393,19 @@ def job(arg):
         res.sample({"pair": [list(first), list(sub[0])]})
     elif kind == "out":
         outgoing(res)
+    elif kind == "behind":
+        for c in items:
+            exp = expected(c, 0, b"")
+            if exp is None or any(e[0] == "CON" for e in exp):
+                continue      # a new CON of the node would rightly queue behind the open exchange (NSTART, C14)
+            if 64 <= c[1] < 192 and c[2]:
+                continue      # (the pending request of this world is not part of this family)
+            run_behind_unacked(res, c)
+        for a in ("slow", "D+e", "0"):
+            for b in ("0", "D-e", "slow"):
+                for t in (rc.CON, rc.NON):
+                    run_same_token(res, a, b, t)
+        res.sample({"behind_unacked_separate_response": list(items[0])})
     return res
 
 
@@ -358,6 +451,7 @@ def run(tier, seed, jobs):
     sub = subtable()
     work += [("pairs", (a, sub)) for a in sub]
     work.append(("out", None))
+    work += [("behind", sub[i::4]) for i in range(4)]
     res = core.prun(job, work, jobs)
     res.scenarios["table"] = {"cells": len(cells), "pair_subtable": len(sub), "pairs": len(sub) ** 2}
     return res
@@ -365,6 +459,12 @@ def run(tier, seed, jobs):
 
 def replay(case, scenario, seed):
     res = Result()
+    if "behind_unacked" in case:
+        run_behind_unacked(res, tuple(case["behind_unacked"]))
+        return [v for v, n in res.violations.values()]
+    if "same_token" in case:
+        run_same_token(res, *case["same_token"])
+        return [v for v, n in res.violations.values()]
     if "outgoing" in case:
         outgoing(res)
     else:
